@@ -124,7 +124,9 @@ def closures (rules : List SRule) : List (Str × List Str) :=
 
 structure Outcome where
   result : Option ScanResult      -- compared as sets / values
-  failing : List Str              -- rules that may be named by the error; empty = no error
+  failing : List Str              -- rules whose failure makes the scan return an error; empty = no error
+  named : List Str                -- the rules the error may name (one, unless several dependencies of the
+                                  -- last failing candidate fail: their order follows a hash set)
   deriving Repr
 
 def cap (n : Nat) : Nat := min n 10
@@ -141,6 +143,14 @@ def aggregate (ms : List SRule) : Option ScanResult :=
     filtered := ms.any (fun r => r.rtype == .filter)
     severity := cap ((dets.map (fun r => cap r.severity)).sum) }
 
+/-- candidates are visited by decreasing (severity as capped at compile time, name) -/
+def visitedBefore (a b : SRule) : Bool :=
+  cap b.severity < cap a.severity || (cap a.severity == cap b.severity && b.name < a.name)
+def insertCand (r : SRule) : List SRule → List SRule
+  | [] => [r]
+  | q :: l => if visitedBefore r q then r :: q :: l else q :: insertCand r l
+def scanOrder (l : List SRule) : List SRule := l.foldr insertCand []
+
 /-- C01/C06/C10: what a scan must deliver -/
 def scan (x : Ext) (ev : Event) (rules : List SRule) : Outcome :=
   let vs := verdicts x ev rules
@@ -150,6 +160,13 @@ def scan (x : Ext) (ev : Event) (rules : List SRule) : Outcome :=
   let cl := closures rules
   let involved := (cands.flatMap (fun r => r.name :: (cl.lookup r.name).getD [])).eraseDups
   let failing := involved.filter (fun n => vs.lookup n == Option.some .err)
-  { result := aggregate matched, failing := failing }
+  -- the error returned is the last one raised: the last visited candidate that fails or has a failing
+  -- dependency decides; it is named itself if it fails (its own evaluation comes after its dependencies')
+  let isBad := fun (n : Str) => vs.lookup n == Option.some .err
+  let lastBad := ((scanOrder cands).filter (fun r => isBad r.name || ((cl.lookup r.name).getD []).any isBad)).getLast?
+  let named := match lastBad with
+    | Option.none => []
+    | Option.some c => if isBad c.name then [c.name] else ((cl.lookup c.name).getD []).filter isBad
+  { result := aggregate matched, failing := failing, named := named }
 
 end Gene.S
